@@ -85,12 +85,16 @@ class _BuildLock:
         self.f.close()
 
 
+def _coq_make_nolock(targets, timeout=1500):
+    coq_makefile()
+    rc, out = sh("make -k -j%d %s" % (NPROC, " ".join(targets)), cwd=COQ, timeout=timeout)
+    return rc == 0, out
+
+
 def coq_make(targets, timeout=1500):
     """make the given .vo targets (full .vo build). Returns (ok, log)."""
     with _BuildLock():
-        coq_makefile()
-        rc, out = sh("make -k -j%d %s" % (NPROC, " ".join(targets)), cwd=COQ, timeout=timeout)
-    return rc == 0, out
+        return _coq_make_nolock(targets, timeout)
 
 
 def coq_property(pid, timeout=1500):
@@ -170,9 +174,6 @@ def _first_coq_error(log):
 # ----------------------------------------------------------------------------- OCaml model driver
 def model_build(timeout=900):
     """Extract the executable models (coq/Extract.v) and build ocaml/_build/driver."""
-    ok, log = coq_make(["Extract.vo"], timeout=timeout)
-    if not ok:
-        raise RuntimeError("extraction failed:\n" + _first_coq_error(log))
     with _BuildLock():
         return _model_build_locked(timeout)
 
@@ -180,25 +181,44 @@ def model_build(timeout=900):
 def _model_build_locked(timeout):
     bdir = os.path.join(OCAML, "_build")
     os.makedirs(bdir, exist_ok=True)
-    srcs = ["model.mli", "model.ml", "conv.ml", "registry.ml", "lockstep.ml"]
+    ok, log = _coq_make_nolock(["Extract.vo"], timeout)
+    if not ok:
+        raise RuntimeError("extraction failed:\n" + _first_coq_error(log))
+    base = ["model.mli", "model.ml", "conv.ml", "registry.ml", "lockstep.ml"]
     hdir = os.path.join(OCAML, "handlers")
-    srcs += ["handlers/" + f for f in sorted(os.listdir(hdir)) if f.endswith(".ml")]
-    srcs += ["driver.ml"]
+    handlers = ["handlers/" + f for f in sorted(os.listdir(hdir)) if f.endswith(".ml")]
+    srcs = base + handlers + ["driver.ml"]
     stamp = os.path.join(bdir, "stamp")
     h = hashlib.sha256()
-    for s in srcs:
-        h.update(open(os.path.join(OCAML, s), "rb").read())
+    for s_ in srcs:
+        h.update(open(os.path.join(OCAML, s_), "rb").read())
     key = h.hexdigest()
     exe = os.path.join(bdir, "driver")
     if os.path.exists(exe) and os.path.exists(stamp) and open(stamp).read() == key:
         return exe
-    for s in srcs:
-        shutil.copy(os.path.join(OCAML, s), os.path.join(bdir, os.path.basename(s)))
-    rc, out = sh("ocamlfind ocamlopt -O2 -w -a -o driver " + " ".join(os.path.basename(s) for s in srcs)
-                 + " 2>&1 || ocamlfind ocamlopt -w -a -o driver " + " ".join(os.path.basename(s) for s in srcs),
-                 cwd=bdir, timeout=timeout)
+    for s_ in srcs:
+        shutil.copy(os.path.join(OCAML, s_), os.path.join(bdir, os.path.basename(s_)))
+    def link(hs):
+        names = [os.path.basename(x) for x in base + hs + ["driver.ml"]]
+        return sh("ocamlfind ocamlopt -O2 -w -a -o driver " + " ".join(names) + " 2>&1 || ocamlfind ocamlopt -w -a -o driver "
+                  + " ".join(names), cwd=bdir, timeout=timeout)
+    rc, out = link(handlers)
     if rc != 0:
-        raise RuntimeError("ocaml build failed:\n" + out[-3000:])
+        # a handler of a unit that is mid-edit must not take every other unit down: drop the handlers
+        # that do not compile on their own (their units will report 'unknown-handler')
+        rc0, out0 = sh("ocamlfind ocamlopt -w -a -c " + " ".join(os.path.basename(x) for x in base), cwd=bdir, timeout=timeout)
+        if rc0 != 0:
+            raise RuntimeError("ocaml build failed:\n" + out0[-3000:])
+        good = []
+        for hnd in handlers:
+            rc1, out1 = sh("ocamlfind ocamlopt -w -a -c " + " ".join(os.path.basename(x) for x in good + [hnd]), cwd=bdir, timeout=timeout)
+            if rc1 == 0:
+                good.append(hnd)
+            else:
+                sys.stderr.write("model_build: dropping handler %s: %s\n" % (hnd, out1[-300:].replace("\n", " ")))
+        rc, out = link(good)
+        if rc != 0:
+            raise RuntimeError("ocaml build failed:\n" + out[-3000:])
     open(stamp, "w").write(key)
     return exe
 
